@@ -688,6 +688,9 @@ class FakeNet:
                 ip = ipaddress.ip_address(host)
                 r = [(int(socket.AF_INET6 if ip.version == 6 else socket.AF_INET), host)]
             except ValueError:
+                if isinstance(host, str) and any(l == '' or len(l) > 63 for l in host.rstrip('.').split('.')):
+                    # what CPython's idna codec does to such a name before the resolver sees it
+                    raise UnicodeError('label empty or too long')
                 raise socket.gaierror(-2, 'Name or service not known')
         res = []
         for af, ip in r:
